@@ -65,7 +65,7 @@ def run(tier: str, seed: int) -> int:
     chk.assumptions = ["parquet / arrow byte-level encoding is observed through read-back only (not modelled)",
                        "integer-valued coordinates (incl. NaN / inf where the subtype allows) so that the abstract record is exact"]
     quick = tier == "quick"
-    r = run_tlc("MC_ParquetDS", cfg=dict(constants=dict(MaxParts=16), invariants=["NumericOrder", "Sensitive"]), timeout=600)
+    r = run_tlc("MC_ParquetDS", cfg=dict(constants=dict(MaxParts=16), invariants=["NumericOrder", "Sensitive"]), timeout=3000)
     chk.add_tlc(r)
     cats = c04.catalogues()
     catname = dict(c04.CATS)
